@@ -12,11 +12,6 @@ PID = 'C10'
 SHORT = 'transport'
 
 ENV = '''
-#[derive(Debug, Clone, Copy, PartialEq, Eq, Structural)]
-pub struct StatusCode { pub bits: u32 }
-impl StatusCode {
-    pub const BadRequestTooLarge: StatusCode = StatusCode { bits: 0x80B8_0000 };
-}
 pub struct DecodingOptions { pub max_chunk_count: usize, pub max_message_size: usize }
 pub struct MessageChunk { pub data: Vec<u8> }
 impl MessageChunk {
@@ -141,6 +136,7 @@ def build(manifest):
     a = Asm()
     a.add('use vstd::prelude::*;\n' + macro_def(lb, 'trace_read_lock') + '\n' + macro_def(lb, 'trace_write_lock') + '\nverus! {\nglobal size_of usize == 8;\n', 'prelude', 'env')
     a.add(norm_vis(types), 'types', 'env')
+    a.add(status_code_struct(manifest), 'status codes', 'env')      # every status code of the real file (D14)
     a.add(ENV, 'env', 'env')
     a.add('impl TcpTransport {')
     a.add(f, 'TcpTransport::process_chunk', 'fn')
